@@ -178,7 +178,7 @@ def shard(ctx):
                 if var == 0:
                     py_subst_case(ctx, rng, P, p, e, var, tb.to_repo(g, P), g, 's', models[:2], 'exhaustive')
     # ---------------- random larger, with notation
-    n = ctx.scale(40000, 1500000)
+    n = ctx.scale(160000, 1500000)
     for k in range(n):
         e = rp.rand_term(rng, rng.randint(1, 4), meta=rng.random() < 0.6, notation=0.3)
         if tb.size(e) > 150:
@@ -194,7 +194,7 @@ def shard(ctx):
         if k % 1500 == 0:
             ctx.sample({'pattern': str(p)[:200], 'var': var, 'kind': kind, 'plug': str(g)[:100]})
     # ---------------- (b) instantiation
-    n = ctx.scale(60000, 1500000)
+    n = ctx.scale(240000, 1500000)
     for k in range(n):
         base_e = rp.rand_term(rng, rng.randint(1, 3), meta=True, notation=0.3, mvs=(0, 1, 2))
         if tb.size(base_e) > 120:
@@ -295,7 +295,7 @@ def shard(ctx):
                               dict(w, delta2={str(i): tb.show(v) for i, v in d2_e.items()}, twice=tb.show(two), once=tb.show(one), expected=tb.show(exp2)))
     # ---------------- (c) Rust functions
     hx = Hx('hx')
-    n = ctx.scale(48000, 1200000)
+    n = ctx.scale(192000, 1200000)
     reqs = []
     meta = []
     for k in range(n):
